@@ -108,8 +108,12 @@ CHECKS = {
            '_data_equality decide equality by type, ids, metadata and cells only (no stored-entry counts, no layout).',
            technique=TECH),
  'C17': _b('All accepted construction inputs agree pairwise; adjacency / uc importers; malformed input always rejected '
-           'with TableException. Bounded only (the error profile that turns a triggered structural '
-           'test into the table error is proved under C20).'),
+           'with TableException. Deductive part (Tier A): Table.__init__ for a scipy matrix as data (fresh float csr matrix with '
+           'the cells of the input, ids installed as given, metadata entry by entry or absent when no entry holds anything, '
+           'lookups rebuilt from the ids, the new table validated exactly when validate is set) - this is the constructor '
+           'contract every table-producing method relies on. The other input forms (dense, lists, dicts, coordinate lists) '
+           'and the *_to_sparse converters are bounded only (the error profile that turns a triggered structural test into '
+           'the table error is proved under C20).', technique=TECH),
  'C18': _b('Contracts of add_metadata / del_metadata (exactly the named ids and keys), MetadataMap.from_file on files from '
            'the row grammar, _add_metadata. Bounded only.'),
  'C19': _b('Every summary / report figure / export equals the value computed from the dense view (non-square tables so '
